@@ -223,6 +223,31 @@ def check(ctx):
                 if fn == "memmove" and rng.random() < 0.5: b = a + rng.randrange(1, 9)
                 if fn == "memset": b = rng.randrange(256)
                 lines.append("Str %s %s %d %d %d %d" % (fn, fmt(m), a, b, n, rng.randrange(8)))
+    # a call interrupted at an instruction boundary by another complete call (interrupt / signal handler using the same library):
+    # the definitions give every call a result that depends on its own arguments only, so both calls are judged as if they had run alone.
+    # Every instruction boundary of the interrupted call (quick: about 200 evenly spread ones when it is longer) is tried.
+    PLAINFN = [f for f in ALLFN if f not in ("strtok", "strtok_r", "strdup", "strndup")]
+    FAMILY = [["strspn", "strcspn", "strpbrk", "strchr", "strchrnul", "strrchr"], ["strstr", "strcasestr", "strcasecmp", "strncasecmp", "strlwr", "strupr"],
+              ["memcpy", "memmove", "memset", "strcpy", "strncpy", "strlcpy", "strcat", "strncat"], ["memcmp", "strcmp", "strncmp", "memchr", "memrchr", "strlen", "strnlen"]]
+    nest = []
+    def small_arena(alpha):
+        N = rng.choice([6, 9, 12])
+        m = [0 if rng.random() < 0.2 else rng.choice(alpha) for _ in range(N)]
+        m[-1] = 0
+        return m
+    for fn in PLAINFN:
+        fam = [g for F in FAMILY if fn in F for g in F if g != fn]
+        inners = [fn, fn] + (rng.sample(fam, min(len(fam), 3 if ctx.thorough else 2))) + [rng.choice(PLAINFN)]
+        for fn2 in inners:
+            for _ in range(3 if ctx.thorough else 1):
+                m, m2 = small_arena([97, 98, 99, 65, 255]), small_arena([120, 121, 122, 88, 97, 1])
+                c, c2 = cases_for(rng, m, fn), cases_for(rng, m2, fn2)
+                if c and c2:
+                    nest.append("Nest %s %s %d %d %d %s %s %d %d %d %s" % (fn, fmt(m), c[0], c[1], c[2], fn2, fmt(m2), c2[0], c2[1], c2[2], "all" if ctx.thorough else "s200"))
+    nscript = []
+    for i, ln in enumerate(nest):
+        if i % 4 == 0: nscript.append("R")
+        nscript.append(ln)
     script = []
     for i, ln in enumerate(lines):
         if i % 400 == 0: script.append("R")
@@ -230,13 +255,16 @@ def check(ctx):
     ctx.samples.append({"calls": [script[1], script[-1]]})
     t = ctx.drive(drv, script, "cstring")
     tb = ctx.drive(drv, big, "cstring_big", timeout=1500, par=1)
-    bad = ctx.judge("CStringTrace", [t, tb], shards=16)
+    tn = ctx.drive(drv, nscript, "cstring_nest", timeout=1500, lines_per_proc=8)
+    ctx.extra["interrupted_calls"] = len(nest)
+    bad = ctx.judge("CStringTrace", [t, tb, tn], shards=16)
     for b in bad: b["driver"] = "drv_cstring"
     ctx.report(bad)
     ctx.assumptions += [
         "arguments satisfy the functions' preconditions (strings terminated inside the arena - except the n-bounded sources of strnlen/strndup/strncmp/strncasecmp/strncpy/strncat, which are also given exactly n unterminated bytes ending with the heap block -, destinations large enough, no overlap except for memmove); the generator chooses such arguments, TLC judges the result",
         "reads or writes outside the arena are observed by ASan (exactly sized heap block; left padding 0..7 bytes varies the alignment)",
         "strtok/strtok_r are called until they return NULL; the token offsets and the final arena are judged",
+        "nested calls (Nest): the interrupting call runs from a SIGTRAP handler at an instruction boundary of the interrupted call (x86-64 trap flag); strtok (documented static state) and strdup/strndup (allocate) are not nested",
     ]
     return ctx.finish(rule="31 functions x (sampled cases from all 6-byte arenas over {00,'a','A',FF} + random arenas up to 80 bytes over all byte values at every alignment + aligned/misaligned long block operations); result and the complete arena after each call judged against CString.tla")
 
@@ -247,6 +275,10 @@ def replay(ctx, path):
     e = d["event"]
     if e.get("e") == "Fault":
         return core.replay_fault(ctx, d, drv, "CStringTrace", path)
+    if e.get("nestline"):
+        t = ctx.drive(drv, ["R", e["nestline"]], "replay", timeout=1500)
+        ctx.report(ctx.judge("CStringTrace", [t]))
+        return ctx.finish(rule="replay of " + path)
     if e.get("e") == "MemBig":
         t = ctx.drive(drv, ["R", "MemBig %s %s" % (e["fn"], e["args"])], "replay", timeout=1500)
         ctx.report(ctx.judge("CStringTrace", [t]))
